@@ -161,7 +161,7 @@ P('C05', claimed=True, level='other',
   unreached=['all thread interleavings / wake-up latencies (sampled with injected 0-20 ms jitter)'])
 
 P('C06', claimed=True, level='other',
-  contracts=['base_osclib', 'base_netaddr', 'base_oscbuild', 'base_osclib_parse', 'base_oscmsgbuild'], drivers=['vf.drivers.C06'],
+  contracts=['base_osclib', 'base_netaddr', 'base_oscbuild', 'base_osclib_parse', 'base_oscmsgbuild', 'base_oscaddarg'], drivers=['vf.drivers.C06'],
   level_text=('Size and refusal laws of the OSC encoders (4-byte alignment, utf-8 length + 1..4 NULs, '
               'blob size prefix + padding with its loop invariant, int32/float32/timetag ranges, NUL '
               'refused) are discharged on the real functions for all inputs, as are the sizing theorem for '
